@@ -2,8 +2,8 @@
 Oracle: Floyd-Warshall distance (vt/oracle.py) + a hop-by-hop matcher of the returned coordinate list against the
 geometries of the edges that may carry each hop.  Case format, generator and network builder: vt/props/c06.py."""
 from vt.core import SubCheck, Violation
-from vt.props.c06 import (INF, agree, build_network, edge_points, enum_small, expand_small, graph_cases, handle,
-                          is_exact, model, _validate)
+from vt.props.c06 import (INF, agree, astar_cases, build_network, edge_points, enum_small, expand_small, graph_cases, handle,
+                          is_exact, model, _validate, _validate_astar)
 
 ASSUMPTIONS = [
     "oracle distance = Floyd-Warshall over arcs (src->tgt when orientation >= 0, tgt->src when orientation <= 0)",
@@ -13,6 +13,8 @@ ASSUMPTIONS = [
     "have weight sum = true distance and chained geometries (each oriented along travel, first vertex dropped) equal "
     "to the returned coordinates exactly (coordinates are copied, never computed)",
     "nothing is demanded for target == source; weights compare exactly when all are multiples of 0.5, else 1e-9 relative",
+    "astar sub-check: A* routing is judged only where its straight-line heuristic is admissible (astar weight <= 1, every "
+    "edge weight >= distance between its end nodes); 1e-9 relative",
 ]
 
 
@@ -117,11 +119,14 @@ def check_path(case, net, s, t, D, exact):
 
 def body_graph(case):
     case = expand_small(case, geom=True)
-    _validate(case)
+    if case.get("astar") is not None:
+        _validate_astar(case)
+    else:
+        _validate(case)
     n, arcs, D = model(case)
     if n == 1:
         return {"undef": True, "cls": ["single-node"]}
-    exact = is_exact(case)
+    exact = is_exact(case) and case.get("astar") is None
     net = build_network(case)
     labels = set()
     for s in range(n):
@@ -134,12 +139,18 @@ def body_graph(case):
     if case.get("abscurv"):
         labels.add("abs_curv-geometries")
     labels.add("exact-weights" if exact else "float-weights")
+    if case.get("astar") is not None:
+        labels.add("astar_wgt=%g" % case["astar"])
     nt = bool(labels & {"mh-against-storage", "mh-zero-weight", "mh-parallel-different-weight"})
     return {"nt": nt, "cls": sorted(labels)}
 
 
 def strat_paths():
     return graph_cases(geom=True, min_nodes=2)
+
+
+def strat_astar():
+    return astar_cases(geom=True)
 
 
 RULE = ("paths: Hypothesis multigraphs of 1..12 nodes and 0..40 edges as for C06 (self-loops, parallel / anti-parallel edges, "
@@ -153,6 +164,8 @@ RULE = ("paths: Hypothesis multigraphs of 1..12 nodes and 0..40 edges as for C06
 SUBCHECKS = [
     SubCheck("paths", body_graph, strategy=strat_paths, quick=4000, thorough=120000, qshards=12,
              rule="random multigraphs with geometries, all ordered pairs s != t"),
+    SubCheck("astar", body_graph, strategy=strat_astar, quick=2500, thorough=80000, qshards=4,
+             rule="A* routing method, weights >= straight-line distance of the end nodes (admissible heuristic), all ordered pairs s != t"),
     SubCheck("small", body_graph, enum=enum_small,
              rule="all graphs on 3 nodes with <= 2 (quick) / <= 3 (thorough) edges, weights {0,1,2}", qshards=4),
 ]
